@@ -91,12 +91,16 @@ Running == begun \ ended
 NoRace(o) == \A r \in Running : /\ WriteCells(o) \cap (ReadCells(r) \cup WriteCells(r)) = {}
                                 /\ ReadCells(o) \cap WriteCells(r) = {}
 
+\* the result of an operation never shares memory with one of its own operands (both are live while it executes)
+SelfOK(o) == WriteCells(o) \cap ReadCells(o) = {}
+
 \* ---------------- SpecInterleave ----------------
 Begin(o) == /\ lvl <= NLevels /\ o \in LevelOps(lvl) /\ o \notin begun
             /\ begun' = begun \cup {o}
             /\ bad' = IF bad # "ok" THEN bad
                       ELSE IF ~WriteOK(o) THEN "unmapped-output"
                       ELSE IF ~OperandOK(o) THEN "read-invalid"
+                      ELSE IF ~SelfOK(o) THEN "self-overlap"
                       ELSE IF ~NoRace(o) THEN "race" ELSE "ok"
             /\ owner' = [a \in DOMAIN owner |-> IF WriteOK(o) /\ a \in WriteCells(o) THEN Busy(o) ELSE owner[a]]
             /\ UNCHANGED <<tid, lvl, ended>>
@@ -115,6 +119,7 @@ RunLevel == /\ lvl <= NLevels
             /\ bad' = IF bad # "ok" THEN bad
                       ELSE IF \E o \in LevelOps(lvl) : ~WriteOK(o) THEN "unmapped-output"
                       ELSE IF \E o \in LevelOps(lvl) : ~OperandOK(o) THEN "read-invalid"
+                      ELSE IF \E o \in LevelOps(lvl) : ~SelfOK(o) THEN "self-overlap"
                       ELSE IF ~Pairwise(lvl) THEN "race" ELSE "ok"
             /\ owner' = [a \in DOMAIN owner |->
                            LET ws == {o \in LevelOps(lvl) : WriteOK(o) /\ a \in WriteCells(o)} IN
@@ -129,6 +134,8 @@ ReadsValid == bad # "read-invalid" \/ Fail("C07", "ReadsValid")
 \* C07: memory released in a level is never handed out again within that level (no write overlaps a concurrent access)
 RaceFree == bad # "race" \/ Fail("C07", "RaceFree")
 OutputsMapped == bad # "unmapped-output" \/ Fail("C08", "OutputsMapped")
+\* C08: operand and result of one operation are simultaneously live and must not overlap
+ResultApartFromOperands == bad # "self-overlap" \/ Fail("C08", "ResultApartFromOperands")
 Terminal == lvl = NLevels + 1
 \* C07: the level partition is a partition of the operation list
 LevelsPartition == (/\ NLevels >= 1 /\ C.levels[1][1] = 0 /\ C.levels[NLevels][2] = NOps
